@@ -410,3 +410,28 @@ pub fn cmd_replay(input: &str, output: &str) {
     let bad = rows.iter().filter(|r| !r["ok"].as_bool().unwrap()).count();
     println!("auth-replay: {} cases, {} disagreements", rows.len(), bad);
 }
+
+/// debugging aid: print the real authorizer state and decision events for one case
+pub fn cmd_debug(input: &str) {
+    let cases = util::read_ndjson(input);
+    let case = &cases[0];
+    let prog = &case["prog"];
+    let mut blocks: Vec<Value> = prog["blocks"].as_array().unwrap().clone();
+    if std::env::var("WITH_EXT").is_ok() {
+        blocks.push(case["ext"].clone());
+    }
+    for b in &blocks {
+        println!("--- block code (ext {}, scope {}):\n{}", b["ext"], b["scope"], block_code(b));
+    }
+    println!("--- authorizer:\n{}", authz_code(&prog["authz"]));
+    let tok = build_token(&blocks).unwrap();
+    println!("{}", tok.print());
+    let mut a = build_authorizer(&prog["authz"], &tok, big_limits()).unwrap();
+    biscuit_auth::verif::record(true);
+    let r = a.authorize();
+    for e in biscuit_auth::verif::take() {
+        println!("{e}");
+    }
+    println!("result {:?}", r);
+    println!("{}", serde_json::to_string_pretty(&a.verif_state()).unwrap());
+}
